@@ -65,6 +65,58 @@ type laneFn struct {
 	events []laneEvent
 	reads  map[string]bool // bases read before written (need the package summary)
 	params map[string]bool // bases that are parameters of the function
+	defs   map[string]string // local identifier -> source text of its := definition (last one seen)
+}
+
+// exprText renders an expression compactly (identifiers, literals, + - * and parentheses).
+func exprText(e ast.Expr) string {
+	switch x := e.(type) {
+	case *ast.Ident:
+		return x.Name
+	case *ast.BasicLit:
+		return x.Value
+	case *ast.ParenExpr:
+		return "(" + exprText(x.X) + ")"
+	case *ast.BinaryExpr:
+		return exprText(x.X) + x.Op.String() + exprText(x.Y)
+	case *ast.SelectorExpr:
+		return exprText(x.X) + "." + x.Sel.Name
+	case *ast.IndexExpr:
+		return exprText(x.X) + "[" + exprText(x.Index) + "]"
+	case *ast.UnaryExpr:
+		return x.Op.String() + exprText(x.X)
+	case *ast.CallExpr:
+		var as []string
+		for _, a := range x.Args {
+			as = append(as, exprText(a))
+		}
+		return exprText(x.Fun) + "(" + strings.Join(as, ",") + ")"
+	case *ast.StarExpr:
+		return "*" + exprText(x.X)
+	}
+	return "?"
+}
+
+// coeffRegion classifies an index / slice lower bound into the region of
+// MBEncInfo.Coeffs it addresses: Y (luma blocks 0..15), UV (chroma blocks 16..23)
+// or ? - from the defining expression of the offset variable.
+func (lf *laneFn) coeffRegion(low ast.Expr) string {
+	if low == nil {
+		return "?"
+	}
+	t := exprText(low)
+	if id, ok := low.(*ast.Ident); ok {
+		if d, ok := lf.defs[id.Name]; ok {
+			t = d
+		}
+	}
+	switch {
+	case t == "blockIdx*16":
+		return "Y"
+	case t == "(uvBase+blockIdx)*16" || t == "(16+blockIdx)*16" || t == "(20+blockIdx)*16":
+		return "UV"
+	}
+	return "?" + t
 }
 
 var laneCalled = map[string]bool{} // functions of internal/lossy referenced anywhere in the module
@@ -104,9 +156,21 @@ func (lf *laneFn) baseKey(e ast.Expr) (key string, elem bool, idx0 bool) {
 		if lo != "" && hi != "" {
 			return k + "[" + lo + ":" + hi + "]", false, false
 		}
+		if k == "Coeffs" && x.Low != nil {
+			return k + "@" + lf.coeffRegion(x.Low), false, false
+		}
 		return k, false, false
 	case *ast.IndexExpr:
 		k, _, _ := lf.baseKey(x.X)
+		if k == "Coeffs" {
+			if tv, ok := lf.p.info.Types[e]; ok {
+				if _, isArr := tv.Type.Underlying().(*types.Array); !isArr {
+					if _, isSl := tv.Type.Underlying().(*types.Slice); !isSl {
+						return k + "@" + lf.coeffRegion(x.Index), true, lf.constOf(x.Index) == "0"
+					}
+				}
+			}
+		}
 		// element of an array of arrays (tmpAllQ[blockIdx]) is still a buffer
 		if tv, ok := lf.p.info.Types[e]; ok {
 			switch tv.Type.Underlying().(type) {
@@ -179,7 +243,7 @@ func (lf *laneFn) read(key string) []string {
 		return []string{k}
 	}
 	// a literal region of a buffer falls back to the whole buffer's state
-	if i := strings.Index(key, "["); i > 0 {
+	if i := strings.Index(key, "["); i > 0 && !strings.Contains(key, "@") {
 		if k, ok := lf.state[key[:i]]; ok {
 			return []string{k}
 		}
@@ -236,7 +300,57 @@ func (lf *laneFn) pos(n ast.Node) string {
 
 var laneReaders = map[string]bool{}
 
+// segment identity: (position, fact, text)
+//   sqroot   the root of a quantiser argument (&seg.Y1 -> "seg") and how seg is bound
+//   segcall  a call passing a *SegmentInfo: the argument text
+//   segbind  a local binding of a *SegmentInfo variable
+var laneSegFacts [][3]string
+
+func (lf *laneFn) isSegInfoPtr(e ast.Expr) bool {
+	tv, ok := lf.p.info.Types[e]
+	if !ok {
+		return false
+	}
+	pt, ok := tv.Type.(*types.Pointer)
+	if !ok {
+		return false
+	}
+	n, ok := pt.Elem().(*types.Named)
+	return ok && n.Obj().Name() == "SegmentInfo"
+}
+
+func (lf *laneFn) sqRoot(e ast.Expr) string {
+	// &seg.Y1 -> seg
+	for {
+		switch x := e.(type) {
+		case *ast.UnaryExpr:
+			e = x.X
+			continue
+		case *ast.ParenExpr:
+			e = x.X
+			continue
+		case *ast.SelectorExpr:
+			if id, ok := x.X.(*ast.Ident); ok {
+				if lf.params[lf.name+"."+id.Name] {
+					return "param:" + id.Name
+				}
+				if d, ok := lf.defs[id.Name]; ok {
+					return "local:" + d
+				}
+				return "other:" + id.Name
+			}
+			return "other:" + exprText(x.X)
+		}
+		return "other:" + exprText(e)
+	}
+}
+
 func (lf *laneFn) call(c *ast.CallExpr) {
+	for _, a := range c.Args {
+		if lf.isSegInfoPtr(a) {
+			laneSegFacts = append(laneSegFacts, [3]string{lf.pos(c), "segcall", lf.name + "|" + exprText(a)})
+		}
+	}
 	name := laneCallee(c)
 	kind, tracked := laneTrackedKernels[name]
 	if !tracked {
@@ -294,12 +408,14 @@ func (lf *laneFn) call(c *ast.CallExpr) {
 		k, _, _ := lf.baseKey(arg(0))
 		ev.kinds = lf.read(k)
 		ev.sq = lf.sqName(arg(2))
+		laneSegFacts = append(laneSegFacts, [3]string{ev.pos, "sqroot", lf.name + "|" + lf.sqRoot(arg(2))})
 		o, _, _ := lf.baseKey(arg(1))
 		lf.state[o] = "lv" + ev.sq
 	case "dequant":
 		k, _, _ := lf.baseKey(arg(0))
 		ev.kinds = lf.read(k)
 		ev.sq = lf.sqName(arg(2))
+		laneSegFacts = append(laneSegFacts, [3]string{ev.pos, "sqroot", lf.name + "|" + lf.sqRoot(arg(2))})
 		o, _, _ := lf.baseKey(arg(1))
 		lf.state[o] = "dq" + ev.sq
 	}
@@ -405,6 +521,12 @@ func (lf *laneFn) walk(n ast.Node) {
 			}
 			if len(s.Lhs) == len(s.Rhs) && (s.Tok == token.ASSIGN || s.Tok == token.DEFINE) {
 				for i := range s.Lhs {
+					if id, ok := s.Lhs[i].(*ast.Ident); ok {
+						lf.defs[id.Name] = exprText(s.Rhs[i])
+						if lf.isSegInfoPtr(s.Rhs[i]) {
+							laneSegFacts = append(laneSegFacts, [3]string{lf.pos(s), "segbind", lf.name + "|" + id.Name + ":=" + exprText(s.Rhs[i])})
+						}
+					}
 					lf.assign(s.Lhs[i], s.Rhs[i])
 				}
 			}
@@ -446,6 +568,7 @@ func genLaneCalls() (string, string) {
 	// resolves reads of buffers written by other functions
 	for round := 0; round < 3; round++ {
 		all = nil
+		laneSegFacts = nil
 		next := map[string]map[string]bool{}
 		for _, f := range p.files {
 			fn := p.fset.Position(f.Pos()).Filename
@@ -457,7 +580,7 @@ func genLaneCalls() (string, string) {
 				if !ok || fd.Body == nil {
 					continue
 				}
-				lf := &laneFn{p: p, name: fd.Name.Name, state: map[string]string{}, reads: map[string]bool{}, params: map[string]bool{}}
+				lf := &laneFn{p: p, name: fd.Name.Name, state: map[string]string{}, reads: map[string]bool{}, params: map[string]bool{}, defs: map[string]string{}}
 				if fd.Type.Params != nil {
 					for _, fl := range fd.Type.Params.List {
 						for _, n := range fl.Names {
@@ -538,6 +661,22 @@ func genLaneCalls() (string, string) {
 			ks = append(ks, "\""+coqString(k)+"\"")
 		}
 		fmt.Fprintf(&b, " (\"%s\", \"%s\", \"%s\", [%s])%s\n", coqString(e.pos), e.kernel, e.sq, strings.Join(ks, "; "), sep)
+	}
+	b.WriteString("].\n\n")
+	sort.Slice(laneSegFacts, func(i, j int) bool {
+		if laneSegFacts[i][0] != laneSegFacts[j][0] {
+			return laneSegFacts[i][0] < laneSegFacts[j][0]
+		}
+		return laneSegFacts[i][1]+laneSegFacts[i][2] < laneSegFacts[j][1]+laneSegFacts[j][2]
+	})
+	b.WriteString("(* segment identity: the root of every quantiser argument, every call passing a *SegmentInfo,\n   every local binding of one *)\n")
+	b.WriteString("Definition lane_seg_facts : list (string * string * string) := [\n")
+	for i, f := range laneSegFacts {
+		sep := ";"
+		if i == len(laneSegFacts)-1 {
+			sep = ""
+		}
+		fmt.Fprintf(&b, " (\"%s\", \"%s\", \"%s\")%s\n", coqString(f[0]), f[1], coqString(f[2]), sep)
 	}
 	b.WriteString("].\n\n")
 	var rd []string
